@@ -547,6 +547,50 @@ def same_text(R, ctx):
     R.require(rid, "floor:parse-sites", n >= 1, "", "%d full_moon text entry points called" % n)
 
 
+def adjacent_names(R, ctx):
+    """Tokens adjacent in the source stay adjacent: a name ending in a digit followed by `..` is not a number followed by a dot."""
+    from .. import peval
+    from ..peval import make, Enum, some
+    from . import c13
+    rid = "C03.adjacent"
+    lib = ctx.lib
+    R.rule(rid, "the line-keeping generator, evaluated from its typed tree on `<name>..b` whose three tokens carry no trivia, for names "
+                "ending in a letter, a digit, an underscore (`a`, `a1`, `_1`, `A9`, `x_`): the text written is the concatenation of the "
+                "token texts (the character table of should_break_with_space cannot tell `a1` from the number `1`; the generator has to)")
+    N, T = "nodes::", "nodes::token::"
+    BIN, ID = N + "expressions::binary::BinaryExpression", N + "identifier::Identifier"
+    if not R.require(rid, "anchor:node-types", all(a in lib.adts for a in (BIN, ID, T + "Token")), "", "node types not found"):
+        return
+
+    def tok(text):
+        return make(lib, T + "Token", {"position": Enum(T + "Position", "Any", {"content": text}), "leading_trivia": [], "trailing_trivia": []})
+
+    def ident(name):
+        return Enum(c13.EXPR, "Identifier", {"0": make(lib, ID, {"name": name, "token": some(tok(name))})})
+    n = 0
+    for G, new, nargs in c13.generators(ctx):
+        if "token_based" not in G and "TokenBased" not in G:
+            continue
+        we, fin = c13.trait_fn(lib, G, "write_expression"), c13.trait_fn(lib, G, "into_string")
+        if we is None or fin is None:
+            continue
+        for name in ("a", "a1", "_1", "A9", "x_"):
+            node = Enum(c13.EXPR, "Binary", {"0": make(lib, BIN, {"operator": Enum(N + "expressions::binary::BinaryOperator", "Concat", {}),
+                                                                   "left": ident(name), "right": ident("b"), "token": some(tok(".."))})})
+            pe = peval.PEval(lib, ctx.an)
+            try:
+                gen = pe.call_fn(new, list(nargs))
+                pe.call_fn(we, [gen, node])
+                text = pe.call_fn(fin, [gen])
+            except peval.OutOfFuel:
+                text = None
+            n += 1
+            want = name + "..b"
+            R.ob(rid, "%s|%s..b" % (G.split("::")[-1], name), text == want, ctx.where(we),
+                 "written as in the source" if text == want else "source text `%s` is written %r" % (want, text if isinstance(text, str) else pe.unknown_reasons[:2]))
+    R.require(rid, "floor:cases", n >= 5, "", "%d cases evaluated" % n)
+
+
 def run(R, ctx):
     R.explanation = (
         "Static capture/store/replay coverage: full_moon's token accessors (from crate metadata) vs. calls in the converter, "
@@ -566,3 +610,4 @@ def run(R, ctx):
     no_spurious_space(R, ctx)
     no_synthesised_values(R, ctx)
     same_text(R, ctx)
+    adjacent_names(R, ctx)
